@@ -40,6 +40,34 @@ def extract_item(repo, rel, sel, within=None, methods=None):
     return txt[it.start:it.end], line
 
 
+def extract_macro_body(repo, rel, sel):
+    """last `{..}` block argument of the macro invocation starting with `sel` (T17)"""
+    p = os.path.join(repo, rel)
+    if not os.path.exists(p):
+        raise RuntimeError("lost anchor: %s missing" % rel)
+    txt = open(p).read()
+    masked = rs.mask(txt)
+    k = masked.find(sel)
+    if k < 0 or masked.find(sel, k + 1) >= 0:
+        raise RuntimeError("lost anchor: macro invocation `%s` in %s" % (sel, rel))
+    po = masked.index("(", k)
+    pc = rs.match_close(masked, po)
+    last_open = None
+    i = po + 1
+    while i < pc:
+        ch = masked[i]
+        if ch == "{":
+            last_open = i
+            i = rs.match_close(masked, i)
+        elif ch in "([":
+            i = rs.match_close(masked, i)
+        i += 1
+    if last_open is None:
+        raise RuntimeError("macro invocation `%s` has no block argument" % sel)
+    bc = rs.match_close(masked, last_open)
+    return txt[last_open:bc + 1], txt.count("\n", 0, last_open) + 1
+
+
 def parse_kani_output(out):
     res = {"status": "UNKNOWN", "failed": [], "covers": None, "checks": None}
     m = re.search(r"VERIFICATION:- (SUCCESSFUL|FAILED)", out)
@@ -121,12 +149,15 @@ def run_kani_unit(name, workdir, tier, prop):
     out["extracted"] = []
     try:
         for e in cfg.get("extract", []):
-            text, line = extract_item(REPO, e["file"], e["sel"], within=e.get("within"))
+            if e.get("macro_body"):
+                text, line = extract_macro_body(REPO, e["file"], e["macro_body"])
+            else:
+                text, line = extract_item(REPO, e["file"], e["sel"], within=e.get("within"))
             for a, b in e.get("replace", []):
                 text = text.replace(a, b)
             with open(os.path.join(dst, e["out"]), "a" if e.get("append") else "w") as f:
                 f.write(e.get("prefix", "") + text + e.get("suffix", "") + "\n")
-            out["extracted"].append(dict(file=e["file"], item=e["sel"], line=line))
+            out["extracted"].append(dict(file=e["file"], item=e.get("sel") or e.get("macro_body"), line=line))
     except RuntimeError as ex:
         out["undecided"] = str(ex)
         return out
